@@ -200,6 +200,21 @@ def ternary_cases():
     return ttasks
 
 
+def dim_cases():
+    """Operator spacing inside the dimension of an array declaration (local, global, second dimension): (label, line,
+    code, whole file text).  `SIZE +2` / `SIZE -2` are left out: that is the recorded class plusminus>constant."""
+    h = norm.render(norm.preamble(".c", "test.c"))
+    out = []
+    for op in ("*", "+", "-", "/", "%", "<<", "&", "|"):
+        for sp, code in ((f"SIZE{op}2", "SPC_BFR_OPERATOR"), (f"SIZE {op}2", "SPC_AFTER_OPERATOR"), (f"SIZE{op} 2", "SPC_BFR_OPERATOR")):
+            if op in "+-" and code == "SPC_AFTER_OPERATOR":
+                continue
+            out.append((f"dim:local:{sp}", 15, code, h + f"int\tft_test(int n)\n{{\n\tchar\tbuf[{sp}];\n\n\tbuf[0] = n;\n\treturn (n);\n}}\n"))
+            out.append((f"dim:global:{sp}", 13, code, h + f"static char\tg_buf[{sp}];\n\nint\tmain(void)\n{{\n\treturn (0);\n}}\n"))
+            out.append((f"dim:second:{sp}", 15, code, h + f"int\tft_test(int n)\n{{\n\tchar\tbuf[4][{sp}];\n\n\tbuf[0][0] = n;\n\treturn (n);\n}}\n"))
+    return out
+
+
 def _wrapped_task(task):
     label, ln, code, text = task
     r = impl.run_text("test.h" if "#ifndef TEST_H" in text else "test.c", text)
@@ -278,6 +293,14 @@ def run(tier, seed):
     for (label, ln, code, text), prob in zip(ttasks, tres):
         if prob:
             failures.append(Failure("C02", f"V25:{code}:{prob}:{label}", f"a ternary in context {label.split('@')[1]}: {prob}",
+                                    {"kind": "wrapped", "text": text, "code": code, "line": ln}))
+    dtasks = dim_cases()
+    dres = explore.pmap(_wrapped_task, dtasks, chunksize=4)
+    st.runs += len(dtasks)
+    st.bump("array_dimension_runs", len(dtasks))
+    for (label, ln, code, text), prob in zip(dtasks, dres):
+        if prob:
+            failures.append(Failure("C02", f"V34/35:{code}:{prob}:{label.rsplit(':', 1)[0]}", f"operator spacing in an array dimension ({label}): {prob}",
                                     {"kind": "wrapped", "text": text, "code": code, "line": ln}))
     # V28 generalised: every parameter shape (scalar, pointer, array, const, function pointer) at every position of a
     # prototype loses its name
